@@ -12,7 +12,7 @@ PROPERTIES = {
                       'arbitrary splice-class operation (symbolic range, API variant, inserted tokens) is executed symbolically and '
                       'the result is compared with a plain list plus the full representation invariant, which makes the step inductive '
                       'over histories of any length.',
-        'level_note': _STORE_NOTE,
+        'level_note': _STORE_NOTE + ' Every query is asked before the operation as well (memoised state belongs to the pre-state); hist2 cells: two operations with no query in between.',
     },
     'C08': {
         'modules': ['harness.c07_store', 'harness.c02_tokens'],
@@ -36,7 +36,10 @@ PROPERTIES['C12'] = {
 
 _DOC_NOTE = ('Trusted: CrossHair, z3, the real parser for building scaffolds (untraced). Bounds: scaffold documents of 3 directives, '
              'repeated fields with <= 4 items, index/slice bounds in [-n-3, n+3], <= 3 donors, steps in {1,2,3,-1,-2}; one operation per '
-             'cell (two in hist cells). Larger documents, longer histories and other templates are outside the claim.')
+             'cell (two in hist cells). Slot cells: every required / optional / unordered node slot and every stand-alone value property of every model '
+             'of three scaffold documents (rich, sparse with falsy values, compact without blanks), donors = nodes found in the same slot of the same class. '
+             'Every attribute and view of every model is read once before the edit (memoised state is part of the pre-state). '
+             'Larger documents, longer histories and other templates are outside the claim.')
 _DOC_TEXT = ('Bounded symbolic checking of the real editing API on parsed scaffold documents: operation arguments (indexes, slice bounds, '
              'donor counts/kinds, op codes) are symbolic over a stated box, CrossHair exhausts every path of the real code and z3 decides '
              'each branch; the oracle is independent (%s).')
@@ -59,7 +62,7 @@ PROPERTIES['C05'] = {
 PROPERTIES['C06'] = {
     'modules': ['harness.rep_ops', 'harness.view_ops', 'harness.slot_ops', 'harness.c13_numexpr'], 'budget': {'quick': 900, 'thorough': 3300},
     'level_text': _DOC_TEXT % 're-parse of the printed text compared with a semantic dump of the edited model',
-    'level_note': _DOC_NOTE + ' The re-parse speaks for the concrete text of each path.',
+    'level_note': _DOC_NOTE + ' The re-parse speaks for the concrete text of each path; besides the structural dump, every value-level property of every model and the value of every token are compared between the edited model and the re-parse, and every token\'s value must be what its text means. Known finding: see known_findings.json.',
 }
 PROPERTIES['C19'] = {
     'modules': ['harness.rep_ops', 'harness.view_ops', 'harness.c09_values', 'harness.c07_store', 'harness.slot_ops', 'harness.claim_hist'], 'budget': {'quick': 900, 'thorough': 3300},
@@ -72,8 +75,8 @@ PROPERTIES['C13'] = {
     'level_text': 'Exhaustive solver-driven enumeration of operand shapes x operators x operand kinds x attachment (CrossHair path tree '
                   'exhausted over the symbolic selectors), each combination executed on the real NumberExpr code and compared with decimal '
                   'arithmetic, an independent evaluator of the printed text and a re-parse; operands and their documents compared before/after.',
-    'level_note': 'Finite configuration space (15 shapes, 5 scalars, 4 operators, 3 modes, 4 attachments; chains of <= 2); numeric literals are '
-                  'concrete. Trusted: CrossHair path exhaustion, decimal, the 30-line evaluator.',
+    'level_note': 'Finite configuration space (20 shapes incl. literals of 30 significant digits, 5 scalars, 4 operators, 3 modes, 4 attachments; chains of <= 2; '
+                  'edits of a number token / parenthesis content inside an expression with every value read before and after); numeric literals are concrete. Trusted: CrossHair path exhaustion, decimal, the 30-line evaluator.',
 }
 
 PROPERTIES['C09'] = {
@@ -85,7 +88,7 @@ PROPERTIES['C09'] = {
 PROPERTIES['C17'] = {
     'modules': ['harness.c17_spacing'], 'budget': {'quick': 900, 'thorough': 3300},
     'level_text': _DOC_TEXT % 'an index walk over a snapshot of the token list for the getter; character-level and identity-level comparison of the document for the setter',
-    'level_note': 'Six templates (blank / whitespace-only lines, CRLF, trailing blanks, missing final newline, nested postings and meta); spacing strings of <= 3 units from {SP, TAB, LF, CRLF}; every model and token of the template. Trusted: CrossHair path exhaustion over the selectors.',
+    'level_note': 'Seven templates (blank / whitespace-only lines, CRLF, trailing blanks, missing final newline, nested postings and meta, neighbours without a blank); selector cells: spacing strings of <= 3 units from {SP, TAB, LF, CRLF, CRCRLF}, every model and token; text cells: EVERY in-domain string of <= 5 symbolic code points (the module\'s regex interpreted by symre) on representative models; after an assignment every model re-reads its adjacent run. Trusted: CrossHair path exhaustion over the selectors.',
 }
 
 PROPERTIES['C02'] = {
@@ -160,7 +163,7 @@ PROPERTIES['C16'] = {
                   'added/replaced x body raising - against an oracle computed from the initial disk contents; (b) the file TEXT itself symbolic (one free Unicode '
                   'code point inserted on disk, through modelled read, real lexer/parser, edit, print, modelled write). Counterexamples are replayed on a real directory.',
     'level_note': 'Trusted: CrossHair, z3, symre, and the file-system model (validated against a real directory on every run). 10 include graphs (nesting, globs, '
-                  'recursive globs, cycles, diamond, respelled and overlapping includes), 7 spellings of the entry path, 5 line-ending patterns; one entry removed/added '
+                  'recursive globs, cycles, diamond, respelled and overlapping includes), 7 spellings of the entry path, 5 line-ending patterns; two blocks run by the same Editor; one entry removed/added '
                   'per block; one free character per file. Symlinks, permissions, encodings other than UTF-8 and I/O failures are outside the claim.',
 }
 
